@@ -216,7 +216,7 @@ func init() {
 											fin, body := fb.fin, fb.body
 											// fin: the sender ends the DEFLATE stream of every compressed message with a BFINAL=1 block, so
 											// that the inflater is done before the last frame (e.g. an empty final fragment) has arrived
-											if fin && (mode == "off" || !hasComp(ls) || scale > 0 || api != "reader") {
+											if fin && (mode == "off" || !hasComp(ls) || scale > 0 || api != "reader" && api != "netconn") {
 												continue
 											}
 											v := variant{Client: client, Mode: mode, Chunk: ch, ReadBuf: rb, API: api, Scale: scale, Final: fin, Body: body}
